@@ -246,3 +246,11 @@ def lemma_r_fun_mono(k, a, b):
 
 
 HINT_LEMMAS += [lemma_r_fun_mono]
+
+
+def lemma_pow2_le(a, b):
+    """0 <= a <= b -> pow2(a) <= pow2(b)"""
+    return implies(0 <= a and a <= b, pow2(a) <= pow2(b))
+
+
+HINT_LEMMAS += [lemma_pow2_le]
